@@ -282,19 +282,19 @@ def check_props(ctx, extra_files=()):
     return obligations, discharged, assumptions, names_all
 
 
-_SRC_MODULE = []
+_SRC_MODULE = {}
 
 
-def src_module():
-    """the module through which the cases run the regenerated code: SrcGlue when the source layer
-    builds on this tree, else the stub that falls back on the hand-written model (the broken
+def src_module(name="SrcGlue"):
+    """the module through which the cases run the regenerated code: SrcGlue / SrcRun when it builds
+    on this tree, else the stub that falls back on the hand-written model (the broken
     obligations are reported by check_props)"""
-    if not _SRC_MODULE:
+    if name not in _SRC_MODULE:
         cdir = os.path.join(COQ, "cases")
         os.makedirs(cdir, exist_ok=True)
-        fname = "probe_src_%d.v" % os.getpid()
+        fname = "probe_%s_%d.v" % (name, os.getpid())
         with open(os.path.join(cdir, fname), "w") as fh:
-            fh.write("From MV Require Import SrcGlue.\n")
+            fh.write("From MV Require Import %s.\n" % name)
         with build_lock(False):
             rc, _ = coqc("cases/" + fname)
         for ext in (".v", ".vo", ".vok", ".vos", ".glob"):
@@ -302,8 +302,8 @@ def src_module():
                 os.remove(os.path.join(cdir, fname[:-2] + ext))
         with contextlib.suppress(OSError):
             os.remove(os.path.join(cdir, "." + fname[:-2] + ".aux"))
-        _SRC_MODULE.append("SrcGlue" if rc == 0 else "SrcGlueStub")
-    return _SRC_MODULE[0]
+        _SRC_MODULE[name] = name if rc == 0 else name + "Stub"
+    return _SRC_MODULE[name]
 
 
 def coq_eval_cases(ctx, name, imports, case_terms, check_fn, per_file=400, extra_defs=""):
@@ -311,8 +311,14 @@ def coq_eval_cases(ctx, name, imports, case_terms, check_fn, per_file=400, extra
     (vm_compute) and return the indices for which it is false."""
     cdir = os.path.join(COQ, "cases")
     os.makedirs(cdir, exist_ok=True)
-    if " SrcGlue" in imports and src_module() != "SrcGlue":
-        imports = imports.replace(" SrcGlue", " SrcGlueStub")
+    for mod in ("SrcGlue", "SrcRun"):
+        if re.search(r" %s\b" % mod, imports) and src_module(mod) != mod:
+            imports = re.sub(r" %s\b" % mod, " %sStub" % mod, imports)
+            stubbed = True
+        else:
+            stubbed = False
+        if not stubbed:
+            continue
         note = "the regenerated code could not be run on the cases (source layer does not build): model-only correspondence"
         if note not in ctx.notes:
             ctx.notes.append(note)
